@@ -47,6 +47,7 @@ type Universe struct {
 	SSA     map[string]*ssa.Package
 	Fset    *token.FileSet
 	Inlined []InlineReport // helper calls expanded before analysis
+	Renamed []string       // functions recognised as renamed (old -> new)
 	Expanded map[*ssa.Function]bool // helpers all of whose uses were expanded: not analysed on their own
 
 	repoFuncs  []*ssa.Function
@@ -150,6 +151,7 @@ func Load(root, dir, goos string, patterns ...string) (*Universe, error) {
 		u.SSA[path] = sp
 	}
 	if KnownFuncs != nil {
+		u.Renamed = u.detectRenames(KnownFuncs)
 		rep, err := u.InlineUnknownHelpers(func(key string) bool { return KnownFuncs[key] })
 		if err != nil {
 			return nil, &LoadError{"helper expansion failed: " + err.Error()}
@@ -190,6 +192,82 @@ func (u *Universe) NormalizeAll() error {
 	return nil
 }
 
+// Aliases maps a function that was (only) renamed since the rules were written to
+// the name the rules know it by (see detectRenames).
+var Aliases = map[*ssa.Function]string{}
+
+// sigKey: package, receiver base type and the types of the signature.
+func (u *Universe) sigKey(fn *ssa.Function) string {
+	sig := fn.Signature
+	k := u.FuncPkgPath(fn) + "|"
+	if r := sig.Recv(); r != nil {
+		k += types.TypeString(r.Type(), nil)
+	}
+	k += "|("
+	for i := 0; i < sig.Params().Len(); i++ {
+		if sig.Variadic() && i == sig.Params().Len()-1 {
+			k += "..."
+		}
+		k += types.TypeString(sig.Params().At(i).Type(), nil) + ","
+	}
+	k += ")"
+	for i := 0; i < sig.Results().Len(); i++ {
+		k += types.TypeString(sig.Results().At(i).Type(), nil) + ","
+	}
+	return k
+}
+
+// detectRenames: a known function that is gone and an unknown function of the
+// same package, receiver and signature - when the pairing is unambiguous - are
+// taken to be one function under a new name; the rules keep addressing it by
+// the name they know. Returns "old -> new" descriptions.
+func (u *Universe) detectRenames(known map[string]bool) []string {
+	present := map[string]*ssa.Function{}
+	var fresh []*ssa.Function
+	for fn := range ssautil.AllFunctions(u.Prog) {
+		if !u.IsRepoFunc(fn) || fn.Parent() != nil || fn.Synthetic != "" || len(fn.Blocks) == 0 {
+			continue
+		}
+		k := u.funcKey(fn)
+		present[k] = fn
+		if !known[k] {
+			fresh = append(fresh, fn)
+		}
+	}
+	// pair a missing known function with a fresh one of the same package, receiver and
+	// signature (recorded in the known list) when there is exactly one of each
+	missing := map[string][]string{} // signature key -> rel names
+	for k := range known {
+		if strings.Contains(k, "$func") || present[k] != nil {
+			continue
+		}
+		parts := strings.SplitN(k, "::", 2)
+		sig := KnownSigs[k]
+		if len(parts) != 2 || sig == "" {
+			continue
+		}
+		missing[sig] = append(missing[sig], parts[1])
+	}
+	freshBy := map[string][]*ssa.Function{}
+	for _, fn := range fresh {
+		freshBy[u.sigKey(fn)] = append(freshBy[u.sigKey(fn)], fn)
+	}
+	var out []string
+	for g, names := range missing {
+		fs := freshBy[g]
+		if len(names) != 1 || len(fs) != 1 {
+			continue
+		}
+		Aliases[fs[0]] = names[0]
+		out = append(out, names[0]+" -> "+fs[0].RelString(fs[0].Pkg.Pkg))
+	}
+	sort.Strings(out)
+	return out
+}
+
+// KnownSigs: signature key (sigKey) of every known top-level function.
+var KnownSigs = map[string]string{}
+
 // KnownFuncs lists (by package path "::" relative name) the repository
 // functions the rules were written against; calls to any other inlinable
 // repository function are expanded in place before analysis (inline.go). nil
@@ -203,12 +281,14 @@ func (u *Universe) FuncKeys() []string {
 	seen := map[string]bool{}
 	for _, fn := range u.repoFuncs {
 		k := u.funcKey(fn)
+		line := k + "\t" + u.sigKey(fn)
 		if fn.Parent() != nil {
 			k = u.ClosureKey(fn)
+			line = k
 		}
 		if !seen[k] {
 			seen[k] = true
-			out = append(out, k)
+			out = append(out, line)
 		}
 	}
 	sort.Strings(out)
@@ -318,6 +398,15 @@ func (u *Universe) IsRepoFunc(fn *ssa.Function) bool {
 func (u *Universe) RelName(fn *ssa.Function) string {
 	if fn == nil {
 		return "<nil>"
+	}
+	if a, ok := Aliases[fn]; ok {
+		return a
+	}
+	if top := topLevel(fn); top != fn {
+		if a, ok := Aliases[top]; ok && top.Pkg != nil {
+			raw := fn.RelString(top.Pkg.Pkg)
+			return a + strings.TrimPrefix(raw, top.RelString(top.Pkg.Pkg))
+		}
 	}
 	if fn.Pkg != nil {
 		return fn.RelString(fn.Pkg.Pkg)
